@@ -510,5 +510,95 @@ func sameFile(e *env) []func() {
 			})
 		}
 	}
+	out = append(out, sameFileThroughSymlinkedDir(e)...)
+	return out
+}
+
+// sameFileThroughSymlinkedDir: the files live in real/, link -> real is a
+// symbolic link to that directory. The SAME path string (or a lexical
+// variant of it) is given for a file in use and for -o, either spelled
+// through the link or relative to a working directory entered through the
+// link ($PWD keeps the logical path, as after `cd link` in a shell).
+func sameFileThroughSymlinkedDir(e *env) []func() {
+	r := e.r
+	var out []func()
+	type sf struct {
+		name   string
+		target string
+		argv   func(inUse func(string) string, o string) []string
+	}
+	cases := []sf{
+		{"input(encrypt)", "in.txt", func(u func(string) string, o string) []string {
+			return []string{"-r", keys.NewX("X1").PublicStr, "-o", o, u("in.txt")}
+		}},
+		{"input(decrypt)", "in.age", func(u func(string) string, o string) []string {
+			return []string{"-d", "-i", u("x1.key"), "-o", o, u("in.age")}
+		}},
+		{"identity(decrypt)", "x1.key", func(u func(string) string, o string) []string {
+			return []string{"-d", "-i", u("x1.key"), "-o", o, u("in.age")}
+		}},
+		{"identity(encrypt -e -i)", "x1.key", func(u func(string) string, o string) []string {
+			return []string{"-e", "-i", u("x1.key"), "-o", o, u("in.txt")}
+		}},
+		{"recipients-file", "rcpts.txt", func(u func(string) string, o string) []string {
+			return []string{"-R", u("rcpts.txt"), "-o", o, u("in.txt")}
+		}},
+	}
+	type layout struct {
+		name  string
+		cwd   string                      // relative to the case directory
+		inUse func(d, name string) string // how files in use are spelled
+		out   func(d, name string) string // how -o is spelled
+	}
+	layouts := []layout{
+		{"cwd=.,both=link/F", "", func(d, n string) string { return "link/" + n }, func(d, n string) string { return "link/" + n }},
+		{"cwd=.,inuse=link/F,out=./link/./F", "", func(d, n string) string { return "link/" + n }, func(d, n string) string { return "./link/./" + n }},
+		{"cwd=.,inuse=$PWD/link/F,out=link/F", "", func(d, n string) string { return d + "/link/" + n }, func(d, n string) string { return "link/" + n }},
+		{"cwd=link(logical),both=F", "link", func(d, n string) string { return n }, func(d, n string) string { return n }},
+		{"cwd=link(logical),inuse=F,out=./F", "link", func(d, n string) string { return n }, func(d, n string) string { return "./" + n }},
+		{"cwd=link(logical),inuse=$PWD/link/F,out=F", "link", func(d, n string) string { return d + "/link/" + n }, func(d, n string) string { return n }},
+		{"cwd=link/sub(logical),both=../F", "link/sub", func(d, n string) string { return "../" + n }, func(d, n string) string { return "../" + n }},
+	}
+	for _, c := range cases {
+		for _, l := range layouts {
+			c, l := c, l
+			out = append(out, func() {
+				d := e.dir()
+				defer e.done(d)
+				real := filepath.Join(d, "real")
+				os.MkdirAll(filepath.Join(real, "sub"), 0o755)
+				pt := []byte("same-file plaintext\n")
+				os.WriteFile(filepath.Join(real, "in.txt"), pt, 0o600)
+				os.WriteFile(filepath.Join(real, "in.age"), refFile("X", pt, false, "samefile"), 0o600)
+				for _, n := range []string{"x1.key", "rcpts.txt"} {
+					b, _ := os.ReadFile(filepath.Join(d, n))
+					os.WriteFile(filepath.Join(real, n), b, 0o600)
+				}
+				if err := os.Symlink("real", filepath.Join(d, "link")); err != nil {
+					r.Inconclusive("symlink: %v", err)
+					return
+				}
+				target := filepath.Join(real, c.target)
+				before := snapshot(target)
+				argv := append([]string{e.age}, c.argv(func(n string) string { return l.inUse(d, n) }, l.out(d, c.target))...)
+				cwd := filepath.Join(d, l.cwd) // NOT resolved: the child gets PWD=<this> and keeps the logical path
+				res := cli.Run(&cli.Cmd{Argv: argv, Dir: cwd, Env: []string{"PWD=" + cwd}})
+				after := snapshot(target)
+				desc := fmt.Sprintf("same-file through a symlinked directory: %s, %s", c.name, l.name)
+				r.Eval(1)
+				r.Distinct(desc)
+				r.Tab("same_file", c.name+"(symlinked dir)")
+				if res.Err != nil {
+					r.Inconclusive("%s: driver error %v", desc, res.Err)
+					return
+				}
+				if res.Exit == 0 || before != after {
+					r.Violate("same-file-accepted:symlinked-dir:"+c.name, fmt.Sprintf("%s: exit=%d, file changed=%v (the output names a file in use, by the very same path, and must be refused)", desc, res.Exit, before != after), map[string]any{"argv": argv, "cwd": l.cwd})
+				} else {
+					r.Count("same_file_refusals", 1)
+				}
+			})
+		}
+	}
 	return out
 }
